@@ -8,6 +8,8 @@ import (
 	"strings"
 
 	"verif/lib"
+
+	"github.com/aml-org/amf-custom-validator/pkg/config"
 )
 
 func init() { checks["C09"] = c09 }
@@ -61,6 +63,9 @@ func c09(tier string) {
 		c05docs = append(c05docs, g.CanonicalJSONLD())
 		if k%2 == 0 {
 			c05docs = append(c05docs, lib.DecorateWithSourceMaps(g, rr).Text)
+			if k == 2 {
+				c05docs = append(c05docs, lib.StripSourceInformation(lib.DecorateWithSourceMaps(g, rr).Text)) // source maps, no file information
+			}
 			t, _ := g.Variant(rr)
 			c05docs = append(c05docs, t)
 		}
@@ -75,7 +80,8 @@ func c09(tier string) {
 	wp, wg := c10WideProfile()
 	defs = append(defs, pdef{wp.Text(), append([]string{wg.CanonicalJSONLD()}, append(c05docs[:3], common...)...)})
 	g14 := c02Graph(lib.CaseRand(ctx.Seed, 9, 50))
-	defs = append(defs, pdef{c14Profile().Text(), append([]string{g14.CanonicalJSONLD(), lib.DecorateWithSourceMaps(g14, rr).Text, lib.DecorateWithSourceMaps(g14, rr).Text}, common...)})
+	defs = append(defs, pdef{c14Profile().Text(), append([]string{g14.CanonicalJSONLD(), lib.DecorateWithSourceMaps(g14, rr).Text, lib.DecorateWithSourceMaps(g14, rr).Text,
+		lib.StripSourceInformation(lib.DecorateWithSourceMaps(g14, rr).Text), lib.StripSourceInformation(lib.SourceMapDoc())}, common...)})
 	for k := 0; k < 4; k++ {
 		p, g := c06Profile(lib.CaseRand(ctx.Seed, 9, 200+k), k)
 		defs = append(defs, pdef{p.Text(), append([]string{g.CanonicalJSONLD(), lib.DecorateWithSourceMaps(g, rr).Text}, append(c05docs[:2], common...)...)})
@@ -83,15 +89,27 @@ func c09(tier string) {
 	// fresh-process references, cached on disk per (profile, doc) across workers of this run
 	refDir := filepath.Join(lib.OutRoot(), "out", "c09-ref", fmt.Sprintf("seed%d", ctx.Seed))
 	_ = os.MkdirAll(refDir, 0o755)
-	fresh := func(pi, di int) (string, bool) {
-		key := filepath.Join(refDir, fmt.Sprintf("%x-%x.ref", hash(defs[pi].text), hash(defs[pi].docs[di])))
+	cfgs := []config.ReportConfiguration{config.DefaultReportConfiguration(), {IncludeReportCreationTime: false}, {IncludeReportCreationTime: true, ReportSchemaIri: "urn:custom:report", LexicalSchemaIri: ""},
+		{IncludeReportCreationTime: false, ReportSchemaIri: "", LexicalSchemaIri: "http://lexical.example/schema"}}
+	cfgArg := func(ci int) string {
+		c := cfgs[ci]
+		inc := "0"
+		if c.IncludeReportCreationTime {
+			inc = "1"
+		}
+		return inc + "|" + c.ReportSchemaIri + "|" + c.LexicalSchemaIri
+	}
+	fresh := func(pi, di, ci int) (string, bool) {
+		key := filepath.Join(refDir, fmt.Sprintf("%x-%x-%d.ref", hash(defs[pi].text), hash(defs[pi].docs[di]), ci))
 		if b, err := os.ReadFile(key); err == nil {
 			return string(b), true
 		}
 		pf, df := filepath.Join(tmp, "p.yaml"), filepath.Join(tmp, "d.jsonld")
 		_ = os.WriteFile(pf, []byte(defs[pi].text), 0o644)
 		_ = os.WriteFile(df, []byte(defs[pi].docs[di]), 0o644)
-		out, err := exec.Command(self, "child", "report", pf, df).Output()
+		cmd := exec.Command(self, "child", "report", pf, df)
+		cmd.Env = append(os.Environ(), "VERIF_CHILD_CFG="+cfgArg(ci))
+		out, err := cmd.Output()
 		if err != nil {
 			return "", false
 		}
@@ -135,7 +153,12 @@ func c09(tier string) {
 				fault = faults[r.Intn(len(faults))]
 				os.Setenv("ACV_VERIF_FAULT", fault)
 			}
-			o := lib.ValidateCompiled(cp.Q, def.docs[di])
+			ci := 0
+			if r.Intn(4) == 0 {
+				ci = r.Intn(len(cfgs)) // partial and custom report configurations, interleaved
+				ctx.Count("steps_under_non_default_report_configuration", 1)
+			}
+			o := lib.ValidateCompiledCfg(cp.Q, def.docs[di], nil, lib.Epoch2000, cfgs[ci])
 			if fault != "" {
 				os.Unsetenv("ACV_VERIF_FAULT")
 				ctx.Count("injected_faults", 1)
@@ -148,7 +171,7 @@ func c09(tier string) {
 				continue
 			}
 			trace = append(trace, fmt.Sprintf("d%d", di))
-			want, ok := fresh(pi, di)
+			want, ok := fresh(pi, di, ci)
 			if !ok {
 				ctx.Inconclusive("reference process failed")
 				return
@@ -186,7 +209,7 @@ func c09(tier string) {
 		}
 		// the profile text, validated in this same process after the history, gives the fresh result as well
 		di := r.Intn(len(def.docs))
-		if want, ok := fresh(pi, di); ok {
+		if want, ok := fresh(pi, di, 0); ok {
 			o := lib.Validate(def.text, def.docs[di])
 			got := o.Report
 			if o.Failed() {
